@@ -81,6 +81,33 @@ fn produce(r: &mut Rng, out: &mut String, k: u64, t: u64, only_chunk: bool) {
             // chunks are bitsets: the result has to shrink back to exactly t values
             let x = *r.pick(&[1u64, 100, 4000, 5000]);
             let op = *r.pick(&["and", "sub", "xor"]);
+            if r.chance(1, 3) {
+                // one operand's chunk is completely FULL (65536 values), the other one a bitset that misses / holds exactly
+                // the t values: full ^ (full minus t values), full - (full minus t values), full & (t values)
+                let (ta, tb) = (start, start + t - 1);
+                writeln!(out, "new b10").unwrap();
+                writeln!(out, "new b11").unwrap();
+                writeln!(out, "insert_range b10 in:{} in:{}", base, base + 65535).unwrap();
+                if op == "and" {
+                    writeln!(out, "insert_range b11 in:{} in:{}", ta, tb).unwrap();
+                } else {
+                    if ta > base {
+                        writeln!(out, "insert_range b11 in:{} ex:{}", base, ta).unwrap();
+                    }
+                    writeln!(out, "insert_range b11 ex:{} in:{}", tb, base + 65535).unwrap();
+                }
+                // the full chunk on the left or (for the symmetric operators) on the right
+                let (l, rr) = if op != "sub" && r.chance(1, 2) { ("b11", "b10") } else { ("b10", "b11") };
+                if r.chance(1, 3) {
+                    writeln!(out, "new b12").unwrap();
+                    writeln!(out, "multi {} {} exact b12 {} {}", op, *r.pick(&["own", "ref", "res_own", "res_ref"]), l, rr).unwrap();
+                } else {
+                    writeln!(out, "{} {} b12 {} {}", op, *r.pick(&["oo", "or", "ro", "rr", "ao", "ar"]), l, rr).unwrap();
+                }
+                writeln!(out, "stats b12").unwrap();
+                writeln!(out, "or {} b0 b0 b12", *r.pick(&["ao", "ar", "rr", "oo"])).unwrap();
+                return;
+            }
             let (a, b) = match op {
                 "and" => ((start, start + t + x), (start + x, start + t + x + r.range(1, 5000))),
                 "sub" => ((start, start + t + x), (start + t, start + t + x + r.range(0, 50))),
@@ -211,7 +238,10 @@ pub fn gen_case(r: &mut Rng, out: &mut String) {
                 let e = (base + 65536 * r.range(1, 2) + *r.pick(&[0u64, 10, 65535])).min(u32::MAX as u64);
                 writeln!(out, "remove_range b0 in:{} in:{}", s, e).unwrap()
             }
-            0 | 1 => writeln!(out, "insert b0 {}", base + r.below(40000)).unwrap(),
+            0 => writeln!(out, "insert b0 {}", base + r.below(40000)).unwrap(),
+            // a value that the chunk most probably holds already (the produced populations start at 0..1000 and are mostly
+            // contiguous): an insert that changes nothing, at the limit
+            1 => writeln!(out, "insert b0 {}", base + 1001 + r.below(2000)).unwrap(),
             2 | 3 => writeln!(out, "remove b0 {}", base + *r.pick(&[0u64, 1, 63, 64, 1000, 30000]) + r.below(3)).unwrap(),
             4 => writeln!(out, "remove_smallest b0 {}", r.range(0, 3)).unwrap(),
             5 => writeln!(out, "remove_biggest b0 {}", r.range(0, 3)).unwrap(),
